@@ -27,6 +27,24 @@ func init() {
 			c.Inputs(spaces.Emph5, c.Pick(10, 12), c11Driver)
 			c.Inputs(spaces.XEmph, c.Pick(7, 9), c11Driver)
 			c.Inputs(spaces.Emph4, c.Pick(11, 13), c11Driver)
+			// Flanking next to every non-ASCII character: each code point from U+0080
+			// up (surrogates excepted) before, after and between delimiter runs of both
+			// kinds; one execution per block of 256 code points.
+			pats := []string{"*%sa*", "*a%s*", "a%s*a*", "*a*%sa", "_%sa_", "_a%s_", "a%s_a_", "**a%s** a", "*%s*"}
+			c.Explore("flanking-codepoints", fmt.Sprintf("every code point U+0080..U+10FFFF in %d delimiter-run contexts %q", len(pats), pats), -1, 0, func(x *X) {
+				blk := x.ChooseFree(0x1100)
+				if blk == 0 {
+					return
+				}
+				for r := rune(blk << 8); r < rune(blk<<8)+256; r++ {
+					if r >= 0xD800 && r <= 0xDFFF {
+						continue
+					}
+					for _, p := range pats {
+						c11Driver(x, []byte(strings.ReplaceAll(p, "%s", string(r))))
+					}
+				}
+			})
 			c.Inputs(spaces.Emph3, c.Pick(13, 16), c11Driver)
 		},
 	})
